@@ -7,6 +7,37 @@ ROOT = os.path.dirname(os.path.dirname(os.path.abspath(__file__)))
 
 # property -> (technique, level text, level note, design ref)
 CHECKS = {
+    "C02": (
+        "property-based testing (Hypothesis) + exhaustive small-scope enumeration vs. set-based reference model",
+        "Exploration, with an exhaustively enumerated small scope: every face-node table of up to 2 faces of sizes 3-5 on <=6 nodes "
+        "(thorough: more sizes and 3-face tables) plus generated meshes of many families (mixed 3..8-gons, partial, subdivided "
+        "edges, extra padding columns, any numbering/starting corner, memory layouts, access orders, an interleaved second grid) "
+        "are built through Grid.from_topology and the derived edge tables compared with a reference model built from the "
+        "definition (edge set, positional face-edge correspondence, corner counts, Euler count).",
+        "Trusted: the reference model in vlib/refmodel.py (sets of consecutive corner pairs); Grid.from_topology stores a "
+        "standard-form table unchanged (C01).",
+        "DESIGN.md section 6, C02",
+    ),
+    "C03": (
+        "property-based testing (Hypothesis) + exhaustive small-scope enumeration vs. set-based reference model",
+        "Exploration with an exhaustively enumerated small scope (all manifold tables of C02's scope) plus generated manifold "
+        "meshes (boundaries, holes, isolated faces, pole fans of valence up to 9, faces sharing several edges) and MPAS-like "
+        "sources that supply their own edge numbering and a drawn subset of tables. node_face / edge_face / face_face / "
+        "hole_edge_indices are compared with incidence sets computed from the face lists; dtype and padding are checked.",
+        "Trusted: vlib/refmodel.py; the MPAS-like writer in vlib/writers.py (it only withholds tables in combinations a "
+        "well-formed source can have).",
+        "DESIGN.md section 6, C03",
+    ),
+    "C17": (
+        "property-based testing (Hypothesis): per-element reference reduction (differential oracle)",
+        "Exploration: generated mixed-size meshes (incl. face-size gaps, padding columns, any face order) x node-centred arrays "
+        "of rank 1-4 and five dtypes x ten reductions x two destinations are compared element by element with a Python loop "
+        "applying the same numpy reduction to exactly the element's corner nodes; dims/grid of the result and raising on "
+        "unsupported combinations are checked.",
+        "Trusted: numpy reductions on small gathered arrays; node dimension last; values are dyadic rationals so float64 "
+        "results are exact.",
+        "DESIGN.md section 6, C17",
+    ),
     "C20": (
         "property-based testing (Hypothesis): generated grid pairs vs. definitional equality oracle",
         "Exploration: generated pairs of grids differing in exactly one longitude / latitude / connectivity entry / "
